@@ -502,7 +502,7 @@ def _side():
 
 @st.composite
 def _chunk_axis_src(draw, n, cap=8):
-    kind = draw(st.sampled_from(["one", "over", "1px", "small", "small", "irregular", "irregular"]))
+    kind = draw(st.sampled_from(["small", "small", "small", "irregular", "irregular", "irregular", "1px", "1px", "one", "over"]))
     lo = max(1, -(-n // cap))
     if kind == "one":
         return ["r", n]
@@ -511,7 +511,7 @@ def _chunk_axis_src(draw, n, cap=8):
     if kind == "1px":
         return ["r", lo]
     if kind == "small":
-        return ["r", max(lo, draw(st.integers(2, 7)))]
+        return ["r", max(lo, min(draw(st.integers(2, 7)), max(1, n - 1)))]  # at least two chunks when n >= 2
     # irregular composition of n into <= cap parts
     parts = []
     left = n
@@ -526,7 +526,7 @@ def _chunk_axis_src(draw, n, cap=8):
 
 @st.composite
 def _chunk_axis_dst(draw, n, cap=8):
-    kind = draw(st.sampled_from(["one", "over", "1px", "small", "small", "small"]))
+    kind = draw(st.sampled_from(["small", "small", "small", "small", "small", "1px", "1px", "1px", "one", "over"]))
     lo = max(1, -(-n // cap))
     if kind == "one":
         return n
@@ -534,7 +534,7 @@ def _chunk_axis_dst(draw, n, cap=8):
         return n + draw(st.integers(1, 5))
     if kind == "1px":
         return lo
-    return max(lo, draw(st.integers(2, 9)))
+    return max(lo, min(draw(st.integers(2, 9)), max(1, n - 1)))  # at least two chunks when n >= 2
 
 
 def _pick(mix, salt, options):
@@ -572,15 +572,32 @@ def _common(draw, src_shape, dst_shape, resampling="nearest", big_ok=True):
     tchunk = _pick(mix, "tchunk", [1, 2, 3]) if nt else 1
     data_shape = ((nt,) if nt else ()) + tuple(src_shape)
     s_nd, d_nd = _nodata_for(mix, code, data_shape)
-    cap_s = 8 if big_ok else 5
-    cap_d = 8 if big_ok else 5
-    if nt >= 2:
-        cap_d = min(cap_d, 6)
-    src_chunks = [draw(_chunk_axis_src(src_shape[0], cap_s)), draw(_chunk_axis_src(src_shape[1], cap_s))]
-    if _pick(mix, "dflt", list(range(8))) == 0:
+    # chunk-count caps keep a case cheap: one axis may be cut into up to 40 (true 1-px chunks on a long axis),
+    # the other one is then limited so that the product stays <= total
+    total = (64 if big_ok else 25) // (2 if nt >= 2 else 1)
+
+    def two_axes(strategy, shape, swap):
+        a, b = (1, 0) if swap else (0, 1)
+        out = [None, None]
+        out[a] = draw(strategy(shape[a], 40))
+        if isinstance(out[a], int):
+            n_first = -(-shape[a] // min(out[a], shape[a]))
+        else:
+            n_first = len(_expand_chunks(out[a], shape[a]))
+        out[b] = draw(strategy(shape[b], max(1, total // n_first)))
+        return out
+
+    src_chunks = two_axes(_chunk_axis_src, src_shape, _pick(mix, "swap_s", [False, True]))
+    dflt = _pick(mix, "dflt", list(range(8))) == 0
+    if dflt:
+        # default = largest source chunk; only when that does not explode the number of destination chunks
+        cy = max(_expand_chunks(src_chunks[0], src_shape[0]))
+        cx = max(_expand_chunks(src_chunks[1], src_shape[1]))
+        dflt = -(-dst_shape[0] // cy) * -(-dst_shape[1] // cx) <= 2 * total
+    if dflt:
         dst_chunks = None
     else:
-        dst_chunks = [draw(_chunk_axis_dst(dst_shape[0], cap_d)), draw(_chunk_axis_dst(dst_shape[1], cap_d))]
+        dst_chunks = two_axes(_chunk_axis_dst, dst_shape, _pick(mix, "swap_d", [False, True]))
     if _pick(mix, "sched", [0, 1, 2, 3]) == 0:
         sched = ["threads", _pick(mix, "nw", [2, 4])]
     else:
@@ -1008,20 +1025,20 @@ def _is_d20(sub, case, msg):
 def build(chk: Check) -> None:
     # ~25-40 ms per case on an idle core; budgets are generous caps for a loaded machine
     chk.sub("same_crs_nearest", o_same_crs, strategy=s_same_linear(), n={"quick": 600, "thorough": 16000},
-            budget_s={"quick": 60, "thorough": 330}, shrink=False)
+            budget_s={"quick": 50, "thorough": 300}, shrink=False)
     chk.sub("same_crs_rotated", o_same_crs, strategy=s_same_rotated(), n={"quick": 160, "thorough": 5000},
-            budget_s={"quick": 40, "thorough": 150}, shrink=False)
+            budget_s={"quick": 30, "thorough": 130}, shrink=False)
     chk.sub("cross_crs_nearest", o_cross, strategy=s_cross(), n={"quick": 260, "thorough": 7000},
-            budget_s={"quick": 50, "thorough": 200}, shrink=False)
+            budget_s={"quick": 40, "thorough": 180}, shrink=False)
     chk.sub("fill_bilinear", o_fill_other,
             strategy=st.one_of(s_same_linear(resampling="bilinear"), s_same_linear(resampling="bilinear"), s_cross(resampling="bilinear")),
-            n={"quick": 160, "thorough": 4000}, budget_s={"quick": 40, "thorough": 120}, shrink=False)
+            n={"quick": 160, "thorough": 4000}, budget_s={"quick": 30, "thorough": 100}, shrink=False)
     chk.sub("disjoint_all_fill", o_disjoint,
             strategy=st.one_of(s_same_linear(places=["disjoint"]),
                                s_same_linear(places=["disjoint", "touching"], klasses=["scale_k", "mirror_xy", "shift_int"]),
                                s_cross(far_apart=True)),
-            n={"quick": 120, "thorough": 3000}, budget_s={"quick": 40, "thorough": 100}, shrink=False)
+            n={"quick": 120, "thorough": 3000}, budget_s={"quick": 30, "thorough": 90}, shrink=False)
     chk.sub("schedules", o_schedules,
             strategy=st.one_of(s_same_linear(places=["partial", "covers", "contained"]), s_same_rotated(), s_cross()).map(_multi_chunks),
-            n={"quick": 60, "thorough": 2000}, budget_s={"quick": 30, "thorough": 120}, shrink=False)
+            n={"quick": 60, "thorough": 2000}, budget_s={"quick": 25, "thorough": 100}, shrink=False)
     chk.known("D20", _is_d20)
